@@ -10,6 +10,7 @@ THEORIES = {}      # name -> fn(eng, st) -> list of z3 axioms
 SPECFNS = {}       # name -> fn(eng, st, *args) -> V
 CLASS_INV = {}     # class name -> list of clause strings over 'self'
 EXT_CLASSES = {}   # class name outside the package -> (module, set of method names): methods are used through ext:<module>.<Class>.<name> contracts
+GHOST_ARRAYS = {}  # name of a ghost heap array -> its z3 sort (created on first havoc as well as on first read)
 FIELD_VIEWS = {}   # theory name -> {attribute: fn(eng, st, ref term) -> V}  (sound under the theory's axioms)
 
 
